@@ -636,9 +636,20 @@ func init() {
 			cone := p.Cone(append(p.concurrentEntries(), p.exportedEntries(markdownPkg)...)...)
 			check := func(fn *ssa.Function, at ssa.Instruction, keyV, valV ssa.Value, desc string, global bool) {
 				keyParams := map[*ssa.Parameter]bool{}
-				var kwalk func(v ssa.Value, d int)
+				// parameters that enter the key only through a function that maps different inputs to one output
+				// (case folding, whitespace collapsing, trimming, replacing): the key is a lossy digest of them
+				lossyVia := map[*ssa.Parameter]string{}
+				exact := map[*ssa.Parameter]bool{}
+				lossyFn := func(name string) bool {
+					switch name {
+					case "strings.Fields", "strings.ToLower", "strings.ToUpper", "strings.TrimSpace", "strings.Title", "strings.Replace", "strings.ReplaceAll", "strings.Map":
+						return true
+					}
+					return strings.HasPrefix(name, "strings.Trim")
+				}
+				var kwalk func(v ssa.Value, d int, via string)
 				kseen := map[ssa.Value]bool{}
-				kwalk = func(v ssa.Value, d int) {
+				kwalk = func(v ssa.Value, d int, via string) {
 					if v == nil || kseen[v] || d > 8 {
 						return
 					}
@@ -647,14 +658,23 @@ func init() {
 						switch x := o.(type) {
 						case *ssa.Parameter:
 							keyParams[x] = true
+							if via == "" {
+								exact[x] = true
+							} else {
+								lossyVia[x] = via
+							}
 						case *ssa.Call:
+							next := via
+							if n := calleeName(&x.Call); lossyFn(n) {
+								next = n
+							}
 							for _, a := range callArgs(&x.Call) {
-								kwalk(a, d+1)
+								kwalk(a, d+1, next)
 							}
 						}
 					}
 				}
-				kwalk(keyV, 0)
+				kwalk(keyV, 0, "")
 				bad := ""
 				seen := map[ssa.Value]bool{}
 				var walk func(v ssa.Value, depth int)
@@ -668,6 +688,9 @@ func init() {
 						case *ssa.Parameter:
 							isRecv := fn.Signature.Recv() != nil && len(fn.Params) > 0 && x == fn.Params[0]
 							if keyParams[x] {
+								if via := lossyVia[x]; via != "" && !exact[x] {
+									bad = fmt.Sprintf("the cached value is computed from parameter %q as given, but the key only holds a digest of it (%s): two different values that %s maps to the same text share one entry, and the one cached first answers for both", x.Name(), via, via)
+								}
 								continue
 							}
 							if isRecv && !global {
